@@ -462,6 +462,7 @@ static void c07_plan(Rng &rng, Plan &p, uint64_t variant) {
     p.cfg.set("clock_step", 1);   // well-behaved clock: the verdict must not depend on machine load (seam S7)
     if (rng.chance(1, 3)) { static const long GB[] = {16, 61, 256, 1024, 8191}; p.cfg.set("gzip_buf", GB[rng.below(5)]); }   // tuning knob (guarded hook): small output buffers
     int pk; Bytes payload = c07_payload(rng, pk);
+    if (rng.chance(1, 5)) { static const long BL[] = {1024, 4096, 65536}; p.cfg.set("bomb_limit", BL[rng.below(3)]); }   // containment next to fidelity: see check_c07
     int cod = (int) ((variant + rng.below(C07_NCOD)) % C07_NCOD);
     std::string cname = C07_CODINGS[cod];
     p.cfg.set("c07_coding", cod); p.cfg.set("c07_payload_kind", pk);
@@ -603,6 +604,13 @@ static bool check_c07(const Plan &p, const RunResult &r, std::string &oracle, st
     if (sd == 0) cname += ".request";
     const Bytes *body = expect_get(cp.xchg[0], sd ? "@body.res" : "@body.req");
     if (!t || !body) return true;
+    // with a small bomb limit containment may cut a body short, but only one that is beyond max(limit, 2048 x compressed bytes);
+    // below that the body is owed in full (the compressed length is the length of the coded body the actor sent)
+    if (p.cfg.has("bomb_limit")) {
+        const Extent &e = sd ? cp.xchg[0].res : cp.xchg[0].req; long head_end = sd ? cp.xchg[0].res_head_end : cp.xchg[0].req_head_end;
+        int64_t wire = std::max<long>(0, e.b - head_end);
+        if ((int64_t) body->size() > std::max<int64_t>(p.cfg.get("bomb_limit", 0), 2048 * (wire > 64 ? wire / 2 : 0))) { if (agg) agg->inc("c07.beyond_bomb_limit_not_compared"); return true; }
+    }
     if (t->body[sd] != *body) {
         size_t k = 0; while (k < body->size() && k < t->body[sd].size() && (*body)[k] == t->body[sd][k]) k++;
         if (t->decomp_restart_lost_input) {
